@@ -861,6 +861,16 @@ func (c *Conn) ReadBatchWith(cfg ReadBatchConfig) *Batch {
 		err = checkTimeoutErr(adjustedDeadline)
 	}
 
+	var kafkaError Error
+	if errors.As(err, &kafkaError) && remain > 0 {
+		// The broker reported an error for the partition. The connection
+		// stays open in this case, skip what is left of the response so the
+		// next operation starts at a response boundary.
+		if _, discardErr := discardN(&c.rbuf, remain, remain); discardErr != nil {
+			err = discardErr
+		}
+	}
+
 	var msgs *messageSetReader
 	if err == nil {
 		if highWaterMark == offset {
@@ -1217,7 +1227,11 @@ func (c *Conn) writeCompressedMessages(codec CompressionCodec, msgs ...Message) 
 			}
 		},
 		func(deadline time.Time, size int) error {
-			return expectZeroSize(readArrayWith(&c.rbuf, size, func(r *bufio.Reader, size int) (int, error) {
+			// An error code returned for the partition does not end the
+			// parsing: the whole response has to be consumed for the
+			// connection to remain usable.
+			var partitionErr error
+			if err := expectZeroSize(readArrayWith(&c.rbuf, size, func(r *bufio.Reader, size int) (int, error) {
 				// Skip the topic, we've produced the message to only one topic,
 				// no need to waste resources loading it in memory.
 				size, err := discardString(r, size)
@@ -1232,10 +1246,10 @@ func (c *Conn) writeCompressedMessages(codec CompressionCodec, msgs ...Message) 
 					case v7:
 						var p produceResponsePartitionV7
 						size, err := p.readFrom(r, size)
-						if err == nil && p.ErrorCode != 0 {
-							err = Error(p.ErrorCode)
+						if err == nil && p.ErrorCode != 0 && partitionErr == nil {
+							partitionErr = Error(p.ErrorCode)
 						}
-						if err == nil {
+						if err == nil && p.ErrorCode == 0 {
 							partition = p.Partition
 							offset = p.Offset
 							appendTime = time.Unix(0, p.Timestamp*int64(time.Millisecond))
@@ -1244,10 +1258,10 @@ func (c *Conn) writeCompressedMessages(codec CompressionCodec, msgs ...Message) 
 					default:
 						var p produceResponsePartitionV2
 						size, err := p.readFrom(r, size)
-						if err == nil && p.ErrorCode != 0 {
-							err = Error(p.ErrorCode)
+						if err == nil && p.ErrorCode != 0 && partitionErr == nil {
+							partitionErr = Error(p.ErrorCode)
 						}
-						if err == nil {
+						if err == nil && p.ErrorCode == 0 {
 							partition = p.Partition
 							offset = p.Offset
 							appendTime = time.Unix(0, p.Timestamp*int64(time.Millisecond))
@@ -1263,7 +1277,10 @@ func (c *Conn) writeCompressedMessages(codec CompressionCodec, msgs ...Message) 
 				// The response is trailed by the throttle time, also skipping
 				// since it's not interesting here.
 				return discardInt32(r, size)
-			}))
+			})); err != nil {
+				return err
+			}
+			return partitionErr
 		},
 	)
 
